@@ -16,7 +16,8 @@ from .core import Ctx, read_dump, write_ndjson, trace_verdict, MachineryError, N
 
 EXPRS = {"const": "42", "var": "x", "dotref": "a.b", "macro": "[1, 2].map(x, x + 1)", "has": "has(m.f)", "cond": 'x > 0 ? "p" : "n"',
          # programs built with / without application functions (a list: one overriding a built-in, one new name)
-         "sizeplain": 'size("h\u00e9llo")', "sizeov": 'size("h\u00e9llo")', "twiceplain": "twice(21)", "twiceov": "twice(21)"}
+         "sizeplain": 'size("h\u00e9llo")', "sizeov": 'size("h\u00e9llo")', "twiceplain": "twice(21)", "twiceov": "twice(21)",
+         "tzplus": 'timestamp("2009-02-13T12:00:00Z").getHours("+02:00")', "tzminus": 'timestamp("2009-02-13T12:00:00Z").getHours("-02:00")'}
 WITH_FUNCTIONS = {"sizeov", "twiceov"}
 
 
@@ -28,13 +29,13 @@ def size(text):
 def twice(n):
     return ct.IntType(2 * n)
 DECLS = ["none", "dotted", "xint", "pkg"]
-BINDINGS = ["empty", "x1", "xneg", "ab7", "ab8x2", "mf", "amap"]
+BINDINGS = ["empty", "x1", "xneg", "ab7", "ab8x2", "mf", "amap", "amapab"]
 
 
 def binding(b):
     I, S, M = ct.IntType, ct.StringType, ct.MapType
     return {"empty": {}, "x1": {"x": I(1)}, "xneg": {"x": I(-5)}, "ab7": {"a.b": I(7)}, "ab8x2": {"a.b": I(8), "x": I(2)},
-            "mf": {"m": M({S("f"): I(1)})}, "amap": {"a": M({S("b"): I(9)})}}[b]
+            "mf": {"m": M({S("f"): I(1)})}, "amap": {"a": M({S("b"): I(9)})}, "amapab": {"a": M({S("b"): I(9)}), "a.b": I(7)}}[b]
 
 
 def new_env(r, d):
@@ -61,7 +62,17 @@ def execute(call, st):
         return {"t": "ok"} if o.kind == "val" else celx.outcome_abs(o)
     if op == "Program":
         env = st["envs"][call[1] - 1]
-        o = celx.guarded(lambda: env.program(env.compile(EXPRS[call[2]]), functions=[size, twice] if call[2] in WITH_FUNCTIONS else None), "program")
+
+        def build():
+            if len(call) > 3:       # "shared": programs of one environment built from ONE compiled syntax tree per expression text
+                key = (call[1], EXPRS[call[2]])
+                if key not in st.setdefault("asts", {}):
+                    st["asts"][key] = env.compile(EXPRS[call[2]])
+                ast = st["asts"][key]
+            else:
+                ast = env.compile(EXPRS[call[2]])
+            return env.program(ast, functions=[size, twice] if call[2] in WITH_FUNCTIONS else None)
+        o = celx.guarded(build, "program")
         st["progs"].append(o.get("v"))
         return {"t": "ok"} if o.kind == "val" else ({"t": "exc", "cls": "CELEvalError", "phase": "program", "msg": ""} if o.kind == "err" else celx.outcome_abs(o))
     prog = st["progs"][call[1] - 1]
@@ -239,9 +250,16 @@ def run(ctx: Ctx) -> int:
     cross = [[["NewEnv", r1, "none"], ["Program", 1, e1], ["NewEnv", r2, "none"], ["Program", 2, e2], ["Evaluate", 2, "x1"], ["Evaluate", 1, "x1"]]
              for r1 in "IC" for r2 in "IC" for e1 in EXPRS for e2 in EXPRS if e1 != e2]
     if q:
-        cross = [h for j, h in enumerate(cross) if j % 4 == 0 or (h[1][2] in WITH_FUNCTIONS) != (h[3][2] in WITH_FUNCTIONS)]
-    pairwise = [h if h[1][2] in ("const", "var", "dotref", "macro", "has", "cond") else h[:16] for h in pairwise]
-    longs = pairwise + cross + longs
+        special = WITH_FUNCTIONS | {"tzplus", "tzminus"}
+        cross = [h for j, h in enumerate(cross) if j % 9 == 0 or ((h[1][2] in special) != (h[3][2] in special) and j % 2 == 0)
+                 or {h[1][2], h[3][2]} in ({"tzplus", "tzminus"}, {"sizeov", "sizeplain"}, {"twiceov", "twiceplain"})]
+    pairwise = [h if h[1][2] in ("const", "var", "dotref", "macro", "has", "cond") else h[:16] for h in pairwise
+                if h[1][2] in ("const", "var", "dotref", "macro", "has", "cond") or h[0][2] == "none"]
+    # 3d. two programs of ONE environment built from one compiled syntax tree (same text), with and without application functions
+    same_tree = [[["NewEnv", r1, "none"], ["Program", 1, e1, "shared"], ["Program", 1, e2, "shared"], ["Evaluate", 2, "x1"], ["Evaluate", 1, "x1"], ["Evaluate", 2, "empty"]]
+                 for r1 in "IC" for e1, e2 in (("sizeplain", "sizeov"), ("sizeov", "sizeplain"), ("twiceplain", "twiceov"), ("twiceov", "twiceplain"), ("const", "const"))]
+    longs = pairwise + cross + same_tree + longs
+    ctx.cov["same_tree_histories"] = len(same_tree)
     ctx.cov["cross_program_histories"] = len(cross)
     ctx.cov["pairwise_binding_histories"] = len(pairwise)
     needed = set()
